@@ -72,6 +72,8 @@ def gen_world(rng, i, tier):
         ex = grammar.HIGH if rng.chance(0.25) else ()       # text that is not ASCII: bytes with the top bit set
         secs = [None] + [grammar.token(rng, "]" + c, 1, 6, first_forbid="[" + BLc, inner_blank=True, extra=ex).rstrip(BLc) or "S" for _ in range(rng.randint(1, 3))]
         secs = [s for s in secs if s != "_none_"]
+        if rng.chance(0.12):
+            secs.append(rng.pick(["Host web ", " lead", " both ", "tab\t"]))        # blanks at the ends of a section name belong to it
         if rng.chance(0.08):
             secs.append(rng.pick(["_oNne_", "_nonf>", "a,one_"]))        # texts with the hash of the reserved placeholder
         if rng.chance(0.12):
